@@ -443,8 +443,27 @@ def run(ctx) -> list[Inst]:
         if not bad:
             insts.append(Inst(RULE, f.short, construct_d, 'ok', file=rel, line=call.lineno,
                               props=props_d))
+        # membership tests against asset_names this walk cannot interpret (inside a generator / comprehension /
+        # any(), part of a compound condition, on a computed expression): the name may well be tested there
+        understood = set()
+        for g in cfg.nodes:
+            if tests_of(g):
+                t = g.ast.test
+                if isinstance(t, ast.UnaryOp):
+                    t = t.operand
+                understood.add(id(t))
+        opaque_tests = [c for c in own_nodes(f.node) if isinstance(c, ast.Compare) and len(c.ops) == 1
+                        and isinstance(c.ops[0], (ast.In, ast.NotIn)) and isinstance(c.comparators[0], ast.Attribute)
+                        and c.comparators[0].attr == 'asset_names' and id(c) not in understood]
         for b in bad:
             what = 'the incoming name' if b is None else f"'{stmt_text(b[2])}'"
+            if opaque_tests:
+                insts.append(Inst(
+                    RULE, f.short, construct_d + (f' [{stmt_text(b[2])}]' if b else ' [incoming]'), 'unproven',
+                    msg=(f"{what} is not followed by a test this rule can read, but '{stmt_text(opaque_tests[0], 80)}' "
+                         f"tests asset_names in a form that is not interpreted"),
+                    file=rel, line=(b[2].lineno if b else call.lineno), props=props_d))
+                continue
             insts.append(Inst(
                 RULE, f.short, construct_d + (f' [{stmt_text(b[2])}]' if b else ' [incoming]'),
                 'violation',
